@@ -32,6 +32,8 @@ CLASSES = {
     "app": ("D", [(11, "id1"), (55, "X")]), "exec": ("8", [(11, "id1"), (17, "e1")]), "hb": ("0", []), "tr": ("1", [(112, "T1")]),
     "rr": ("2", [(7, 1), (16, 0)]), "gf": ("4", [(123, "Y"), (36, "NEW")]), "rs": ("4", [(36, "NEW")]), "logout": ("5", [(58, "bye")]),
     "logon": ("A", [(98, 0), (108, 30)]), "custom": ("ZZ", [(58, "x")]),
+    # a Logon asking for a sequence reset: an integrity defect is a defect all the same (34=1 with it is the legitimate reset: left out)
+    "logonr": ("A", [(98, 0), (108, 30), (141, "Y")]),
 }
 DEFECTS = ["sender-missing", "target-missing", "sender-wrong", "target-wrong", "swapped", "both-missing", "seq-missing", "seq-too-low", "seq-one",
            "beginstring-42", "beginstring-fixt"]
@@ -57,10 +59,17 @@ def all_cells():
     # A: inbound before logon
     for role, st in (("acceptor", "nce"), ("initiator", "nce"), ("initiator", "logon_sent")):
         for cls in CLASSES:
-            if cls == "logon":
+            if cls in ("logon", "logonr"):
                 continue
             for rel in (0, 2):
                 cells.append(("A-in", role, st, cls, rel))
+    # A'': a Logon that lacks a field the Logon processing needs (HeartBtInt, EncryptMethod): no Logon exchange has completed, so
+    # the application message behind it (numbered as if the Logon had counted, or not) is not delivered
+    for role, st in (("acceptor", "nce"), ("initiator", "logon_sent")):
+        for missing in ("108", "98", "108+98"):
+            for rel in (0, 1):
+                for same_read in (False, True):
+                    cells.append(("A-badlogon", role, st, missing, rel, same_read))
     # A: sends
     for role in ("acceptor", "initiator"):
         for st in ("never", "nce", "logon_sent", "disconnected"):
@@ -77,9 +86,11 @@ def all_cells():
     for role in ("acceptor", "initiator"):
         for st in ("prelogon", "active", "awaiting"):
             for cls in CLASSES:
-                if st == "prelogon" and cls != "logon":
+                if st == "prelogon" and cls not in ("logon", "logonr"):
                     continue
                 for d in DEFECTS:
+                    if cls == "logonr" and (d == "seq-one" or (d == "seq-too-low" and st == "prelogon")):
+                        continue
                     for order in ORDERS:
                         if order != "std" and cls not in ("app", "logon", "hb"):
                             continue
@@ -239,6 +250,38 @@ async def cell_A_in(acc, clock, cell, cid):
     if n.disc != 1:
         return acc.violation(f"{tag}:on_disconnect-count", f"on_disconnect called {n.disc} times", w, cid)
     await continuation(acc, clock, ep, j, peer, cid, w, f"A-in/{cls}")
+
+
+async def cell_A_badlogon(acc, clock, cell, cid):
+    from asyncfix.connection import ConnectionState as CS
+    from vf.sim.net import settle
+    _, role, st, missing, rel, same_read = cell
+    b = await build(clock, role, st)
+    if b is None:
+        acc.add("start_state_not_reached")
+        return
+    ep, j, peer = b
+    o = Obs(ep, j)
+    s = o.live_in
+    body = [(t, v) for t, v in ((98, 0), (108, 30)) if str(t) not in missing.split("+")]
+    logon = mkframe("A", s, "PEER", "ME", body)
+    app = mkframe("D", s + rel, "PEER", "ME", [(11, "early"), (55, "X")])
+    if same_read:
+        ep.vf_reader.feed(logon + app)
+    else:
+        ep.vf_reader.feed(logon)
+        await settle()
+        ep.vf_reader.feed(app)
+    await settle()
+    acc.oracle("A:inbound-before-logon")
+    n = Obs(ep, j)
+    w = {"cell": cell, "events": ep.ev[o.ev:], "tap": [fixwire.show(x)[:90] for x in ep.vf_tap.frames(o.tap)], "state": n.state.name,
+         "in": [o.live_in, n.live_in, o.st_in, n.st_in], "swallowed": ep.vf_log.exceptions[-2:]}
+    tag = f"{role}-{'awaiting-logon' if st == 'logon_sent' else 'before-logon'}"
+    completed = any(e[0] == "logon" for e in ep.ev[o.ev:]) or any(e == ("state", "ACTIVE") for e in ep.ev[o.ev:])
+    if n.rx != o.rx and not completed:
+        return acc.violation(f"{tag}:delivers-app-message:after-a-logon-that-could-not-be-processed",
+                             f"Logon without {missing} did not complete the exchange (state {n.state.name}), the application message behind it was handed to on_message", w, cid)
 
 
 async def cell_A_send(acc, clock, cell, cid):
@@ -707,6 +750,8 @@ def run_shard(spec, acc):
             try:
                 if cell[0] == "A-in":
                     await cell_A_in(acc, clock, cell, cid)
+                elif cell[0] == "A-badlogon":
+                    await cell_A_badlogon(acc, clock, cell, cid)
                 elif cell[0] == "A-send":
                     await cell_A_send(acc, clock, cell, cid)
                 elif cell[0] == "A-send-in-logon":
